@@ -90,6 +90,21 @@ def handle (args : List String) (impl : List String) : String :=
       let D := if d.isEmpty then Mat.id n else Mat.diag d
       verdictM (if t then (A.transpose.mul D).mul A else (A.mul D).mul A.transpose) C
     | _, _, _, _ => "bad-op"
+  -- MatrixRectangular::sample(A, rowKeep, colKeep, flagInvertRow, flagInvertCol): empty list = all;
+  -- inverted list = complement in increasing order; impl `- - -` = null pointer (nothing left)
+  | ["samp", ir, ic, rows, cols, r1, c1, v1], [r3, c3, v3] =>
+    match pbool ir, pbool ic, parseNats? rows, parseNats? cols, parseMat? r1 c1 v1 with
+    | some ir, some ic, some rows, some cols, some A =>
+      let pick := fun (n : Nat) (keep : List Nat) (inv : Bool) =>
+        let base := if keep.isEmpty then List.range n else keep
+        if inv then (List.range n).filter (fun i => !(base.contains i)) else base
+      let rs := pick A.r rows ir
+      let cs := pick A.c cols ic
+      if rs.isEmpty || cs.isEmpty then (if r3 = "-" then "ok" else "bad model=null")
+      else match parseMat? r3 c3 v3 with
+        | some C => verdictM (A.sub rs cs) C
+        | none => s!"bad model={fmtMat (A.sub rs cs)}"
+    | _, _, _, _, _ => "bad-op"
   | ["sub", rows, cols, r1, c1, v1], [r3, c3, v3] =>
     match parseNats? rows, parseNats? cols, parseMat? r1 c1 v1, parseMat? r3 c3 v3 with
     | some rows, some cols, some A, some C => verdictM (A.sub rows cols) C
